@@ -8,12 +8,14 @@
 package main
 
 import (
+	"errors"
 	"fmt"
 	"io"
 	"net"
 	"net/http"
 	"net/http/httptest"
 	"net/url"
+	"os"
 	"sort"
 	"strings"
 	"sync"
@@ -62,7 +64,7 @@ func (s *hlsStub) APISessionsList() (*defs.APIHLSSessionList, error) {
 	return &defs.APIHLSSessionList{ItemCount: len(l), PageCount: 1, Items: l}, nil
 }
 func (s *hlsStub) APISessionsGet(uuid.UUID) (*defs.APIHLSSession, error) { panic("unused") }
-func (s *hlsStub) APISessionsKick(uuid.UUID) error                      { panic("unused") }
+func (s *hlsStub) APISessionsKick(uuid.UUID) error                       { panic("unused") }
 func (s *hlsStub) APIMuxersList() (*defs.APIHLSMuxerList, error) {
 	l := list[defs.APIHLSMuxer](*s.w, "hls_muxers")
 	return &defs.APIHLSMuxerList{ItemCount: len(l), PageCount: 1, Items: l}, nil
@@ -84,7 +86,7 @@ func (s *rtspStub) APISessionsList() (*defs.APIRTSPSessionList, error) {
 	return &defs.APIRTSPSessionList{ItemCount: len(l), PageCount: 1, Items: l}, nil
 }
 func (s *rtspStub) APISessionsGet(uuid.UUID) (*defs.APIRTSPSession, error) { panic("unused") }
-func (s *rtspStub) APISessionsKick(uuid.UUID) error                       { panic("unused") }
+func (s *rtspStub) APISessionsKick(uuid.UUID) error                        { panic("unused") }
 
 type rtmpStub struct {
 	w   **world
@@ -114,7 +116,7 @@ func (s *webrtcStub) APISessionsList() (*defs.APIWebRTCSessionList, error) {
 	return &defs.APIWebRTCSessionList{ItemCount: len(l), PageCount: 1, Items: l}, nil
 }
 func (s *webrtcStub) APISessionsGet(uuid.UUID) (*defs.APIWebRTCSession, error) { panic("unused") }
-func (s *webrtcStub) APISessionsKick(uuid.UUID) error                         { panic("unused") }
+func (s *webrtcStub) APISessionsKick(uuid.UUID) error                          { panic("unused") }
 
 type moqStub struct{ w **world }
 
@@ -123,7 +125,7 @@ func (s *moqStub) APISessionsList() (*defs.APIMoQSessionList, error) {
 	return &defs.APIMoQSessionList{ItemCount: len(l), PageCount: 1, Items: l}, nil
 }
 func (s *moqStub) APISessionsGet(uuid.UUID) (*defs.APIMoQSession, error) { panic("unused") }
-func (s *moqStub) APISessionsKick(uuid.UUID) error                      { panic("unused") }
+func (s *moqStub) APISessionsKick(uuid.UUID) error                       { panic("unused") }
 
 // server is one real Metrics instance wired to a replaceable world.
 type server struct {
@@ -207,17 +209,39 @@ func (q query) values() url.Values {
 	return v
 }
 
-func (s *server) get(q query) string {
+// get runs one scrape through the real handler. A handler that panics or answers with another
+// status than 200 is the code under test misbehaving: it is returned as a finding (violation),
+// never raised as a harness error.
+func (s *server) get(q query) (string, *finding) { return s.serve(q.request()) }
+
+func (q query) request() *http.Request {
 	target := "/metrics"
 	if enc := q.values().Encode(); enc != "" {
 		target += "?" + enc
 	}
+	return httptest.NewRequest(http.MethodGet, target, nil)
+}
+
+func (s *server) serve(req *http.Request) (string, *finding) {
 	rec := httptest.NewRecorder()
-	s.m.VerifC36Serve(rec, httptest.NewRequest(http.MethodGet, target, nil))
-	if rec.Code != http.StatusOK {
-		vcommon.Harness("handler status %d", rec.Code)
+	if p, stack := vcommon.Recover(func() { s.m.VerifC36Serve(rec, req) }); p != nil {
+		return rec.Body.String(), &finding{"handler-panics", fmt.Sprintf("the /metrics handler panics: %v\n%s", p, vcommon.Short(stack, 1200))}
 	}
-	return rec.Body.String()
+	if rec.Code != http.StatusOK {
+		return rec.Body.String(), &finding{fmt.Sprintf("handler-status-%d", rec.Code),
+			fmt.Sprintf("the /metrics handler answers a valid scrape with status %d: %s", rec.Code, vcommon.Short(rec.Body.String(), 200))}
+	}
+	return rec.Body.String(), nil
+}
+
+// scrape = get + the per-scrape oracle.
+func (s *server) scrape(w *world, q query) (string, *finding) {
+	s.install(w)
+	body, f := s.get(q)
+	if f == nil {
+		f = judge(body, w, q)
+	}
+	return body, f
 }
 
 // ---------------------------------------------------------------------------------------------
@@ -465,16 +489,20 @@ func runCase(srv *server, k kase) (res *result, body string) {
 		real[i] = c.s
 	}
 	w, q := k.build(real)
-	srv.install(w)
-	body = srv.get(q)
-	f := judge(body, w, q)
+	body, f := srv.scrape(w, q)
 	if f == nil {
 		return nil, body
 	}
-	if strings.HasPrefix(f.symptom, "harness:") {
-		vcommon.Harness("%s (%s)", f.what, k.desc)
-	}
 	rep := map[string]any{"case": k.desc, "query": q.String(), "strings_go": fmt.Sprintf("%q", real), "body_go": vcommon.Short(fmt.Sprintf("%q", body), 1500)}
+	// srv has served the earlier cases of its chunk. The same state on a Metrics instance that has
+	// served nothing: if that one is right, the exposition depends on what was scraped before.
+	if fb, ff := newServer("").scrape(w, q); ff == nil {
+		fam, detail := diffFamily(body, fb, k.typ)
+		rep["fresh_instance_body_go"] = vcommon.Short(fmt.Sprintf("%q", fb), 1500)
+		return &result{"exposition-not-a-function-of-state:" + fam,
+			fmt.Sprintf("%s, query %s: a Metrics instance that has served nothing before exposes this state correctly, the instance that served the preceding cases of the enumeration does not (%s): %s",
+				k.desc, q, detail, f.what), rep}, body
+	}
 	class := ""
 	for _, c := range k.strs {
 		if c.class != "" {
@@ -492,9 +520,8 @@ func runCase(srv *server, k kase) (res *result, body string) {
 			}
 		}
 		w2, q2 := k.build(tokens)
-		srv.install(w2)
-		body2 := srv.get(q2)
-		if judge(body2, w2, q2) == nil && strings.NewReplacer(pairs...).Replace(body2) == body {
+		body2, f2 := newServer("").scrape(w2, q2)
+		if f2 == nil && strings.NewReplacer(pairs...).Replace(body2) == body {
 			return &result{"label-value-raw-" + class,
 				fmt.Sprintf("a label value containing a %s is written without escaping (%s, query %s): %s", className(class), k.desc, q, f.what), rep}, body
 		}
@@ -527,6 +554,7 @@ func freePort() string {
 
 func main() {
 	gin.SetMode(gin.ReleaseMode)
+	t0 := time.Now()
 	r := vcommon.Start("C36", "exploration")
 	cases := genCases(r.Thorough())
 	nSingle := len(cases)
@@ -539,7 +567,13 @@ func main() {
 		"plus CROSS-ENTITY INTERFERENCE worlds (harmless strings, prefix-related names): paths as every ORDERED pair over {ready,notReady} x 5 reader sets (none, one type, repeated+mixed, disjoint, overlapping; thorough: 6, all 11 reader types) x 0-2 forward destinations "+
 		"(different ids/protocols/states per path) and every ordered triple over ready x reader sets (thorough: also quadruples), paths and every list type as ordered pairs/triples of counter magnitudes and of states "+
 		"(two sessions on one path included), and worlds with all 13 types populated at once, each under no query, type=T, every path=/id filter with and without type, forward_dest= of every destination, path= prefixes; "+
-		"plus the MoQ reachability corpus (CLIENT_SETUP PATH strings through the real session code) and an HTTP-listener equivalence corpus. "+
+		"plus the MoQ reachability corpus (CLIENT_SETUP PATH strings through the real session code) and an HTTP-listener equivalence corpus (1/97 of the cases through the real listener on ONE instance; "+
+		"a listener-level exposition that differs from the handler-level one of the same state is a violation exposition-not-a-function-of-state:<family>). "+
+		"HISTORY dimension (one Metrics instance, state changes between scrapes; every scrape must equal the scrape of a FRESH instance given the same state, which itself must pass the per-scrape oracle): "+
+		"per entity kind the full product of identity {#0,#1} x state label (all values) x path {\"\",live/a,live/b} x counters {all zero, set A, set B} (paths: name x ready x 3 reader sets x 3 counter sets x forward destinations "+
+		"{none, one, the same one with other protocol/state/counter, two}) + entity absent + 3 two-entity worlds (order and attributes exchanged); all state sequences of length 2 [thorough 3] with a type= and an id-filtered scrape per step, "+
+		"all sequences of length 2 [thorough 3] over (reduced alphabet: base, each single-field change, all fields changed, absent, two entities) x every query variant with one scrape per step, and all ordered pairs [triples] of worlds with all 13 types populated. "+
+		"The main enumeration itself runs in chunks of 256 consecutive cases per Metrics instance; a case that fails there but passes on a fresh instance is reported under the same key. "+
 		"distinct = (type, #entities, escaping class, magnitude, baseline, query variant, verdict)", len(strs))
 
 	type vrep struct {
@@ -561,16 +595,14 @@ func main() {
 		}
 	}
 
+	// every chunk of consecutive cases is served by ONE Metrics instance created for it (so each
+	// case but the first of a chunk also has a deterministic history: the cases before it; a case
+	// that fails there and passes on a fresh instance is reported as depending on the history)
 	chunk := 256
 	nchunks := (len(cases) + chunk - 1) / chunk
-	pool := make(chan *server, 64)
-	for i := 0; i < cap(pool); i++ {
-		pool <- newServer("")
-	}
 	var bodies sync.Map // index -> body of selected cases for the HTTP equivalence corpus
 	vcommon.Parallel(nchunks, func(ci int) {
-		srv := <-pool
-		defer func() { pool <- srv }()
+		srv := newServer("")
 		for i := ci * chunk; i < min((ci+1)*chunk, len(cases)); i++ {
 			k := cases[i]
 			res, body := runCase(srv, k)
@@ -597,8 +629,10 @@ func main() {
 		}
 	})
 
-	// ---- HTTP equivalence corpus: the same cases through the real listener + middlewares must
-	// give byte-identical bodies (validates the handler-level seam).
+	// ---- HTTP equivalence corpus: the same cases through the real listener + middlewares, all on
+	// ONE listening instance. Handler-level and listener-level scrape of the same state must give
+	// the same exposition; a difference is the code under test answering two scrapes of one state
+	// differently (a violation), not a harness error.
 	addr := freePort()
 	hs := newServer(addr)
 	tr := &http.Transport{}
@@ -619,28 +653,78 @@ func main() {
 		if enc := q.values().Encode(); enc != "" {
 			u += "?" + enc
 		}
-		resp, err := hc.Get(u)
-		if err != nil {
-			vcommon.Harness("http get: %v", err)
-		}
-		b, _ := io.ReadAll(resp.Body)
-		resp.Body.Close()
-		want, _ := bodies.Load(i)
-		if resp.StatusCode != 200 || string(b) != want.(string) {
-			vcommon.Harness("the listener-level response differs from the handler-level one for case %s (status %d)", k.desc, resp.StatusCode)
+		var resp *http.Response
+		var err error
+		for attempt := 0; attempt < 3; attempt++ {
+			resp, err = hc.Get(u)
+			var oe *net.OpError
+			if err == nil || !(errors.As(err, &oe) && oe.Op == "dial") {
+				break
+			}
+			time.Sleep(200 * time.Millisecond) // could not even connect: environment (loopback ports), retry
 		}
 		nhttp++
 		r.Eval(1)
+		var oe *net.OpError
+		if err != nil && errors.As(err, &oe) && oe.Op == "dial" {
+			vcommon.Harness("cannot connect to the metrics listener on %s: %v", addr, err)
+		}
+		rep := map[string]any{"case": k.desc, "query": q.String(), "level": "real listener"}
+		if err != nil {
+			record(len(cases)+i, &result{"listener-request-fails", fmt.Sprintf("%s, query %s: a scrape through the real listener gets no response (%v); the handler-level scrape of the same state succeeds", k.desc, q, err), rep}, k.typ)
+			tr.CloseIdleConnections()
+			continue
+		}
+		b, rerr := io.ReadAll(resp.Body)
+		resp.Body.Close()
+		want, _ := bodies.Load(i)
+		rep["body_go"] = vcommon.Short(fmt.Sprintf("%q", b), 1500)
+		rep["handler_level_body_go"] = vcommon.Short(fmt.Sprintf("%q", want), 1500)
+		switch {
+		case resp.StatusCode != 200:
+			record(len(cases)+i, &result{fmt.Sprintf("listener-status-%d", resp.StatusCode),
+				fmt.Sprintf("%s, query %s: a scrape through the real listener is answered with status %d", k.desc, q, resp.StatusCode), rep}, k.typ)
+		case rerr != nil:
+			record(len(cases)+i, &result{"listener-request-fails", fmt.Sprintf("%s, query %s: the response body of the real listener cannot be read completely (%v)", k.desc, q, rerr), rep}, k.typ)
+		case !sameExposition(string(b), want.(string)):
+			// which of the two is wrong (if any) is decided by a fresh instance and the per-scrape oracle
+			fb, _ := newServer("").scrape(w, q)
+			var fam, detail, other string
+			if !sameExposition(string(b), fb) {
+				fam, detail = diffFamily(string(b), fb, k.typ)
+				other = "listener-level"
+				if !sameExposition(want.(string), fb) {
+					other = "listener-level one and the handler-level"
+				}
+			} else {
+				fam, detail = diffFamily(want.(string), fb, k.typ)
+				other = "handler-level"
+			}
+			what := "the per-scrape oracle accepts the listener-level body"
+			if jf := judge(string(b), w, q); jf != nil {
+				what = "per-scrape oracle on the listener-level body: " + jf.what
+			}
+			record(len(cases)+i, &result{"exposition-not-a-function-of-state:" + fam,
+				fmt.Sprintf("%s, query %s: the scrape through the real listener and the handler-level scrape of the SAME state differ; deviating from a fresh instance: the %s one (%s); %s",
+					k.desc, q, other, detail, what), rep}, k.typ)
+		}
 	}
 	tr.CloseIdleConnections()
 	hs.m.Close()
+
+	// ---- HISTORY dimension (history.go)
+	tH := time.Now()
+	hrep := runHistories(r, r.Thorough(), -(1 << 40), record) // negative indexes: a minimal explicit history is the preferred representative of a class
+	if os.Getenv("C36_TIMING") != "" {
+		fmt.Fprintf(os.Stderr, "C36 timing: history phase %.1fs, everything before it %.1fs\n", time.Since(tH).Seconds(), tH.Sub(t0).Seconds())
+	}
 
 	// ---- MoQ reachability corpus: the Path a real native-QUIC MoQ session reports after nothing
 	// but a CLIENT_SETUP with a client-chosen PATH option, exposed by the real Metrics.
 	moqPaths := []string{"/live/cam1", "/a%22b", `/a"b`, "/a%5Cb", `/a\b`, "/a%0Ab", "/a%FFb", "/a%22%7D%201%0Apaths%209", "/x?token=1", "/%22"}
 	reach := []string{}
-	srv := <-pool
 	for i, p := range moqPaths {
+		srv := newServer("")
 		item, err := moq.VerifC36QUICSetup(p)
 		r.Eval(1)
 		if err != nil {
@@ -650,9 +734,7 @@ func main() {
 		reach = append(reach, fmt.Sprintf("%q -> session path %q", p, item.Path))
 		w := newWorld()
 		w.lists["moq_sessions"] = []any{item}
-		srv.install(w)
-		body := srv.get(query{})
-		f := judge(body, w, query{})
+		body, f := srv.scrape(w, query{})
 		verdict := "ok"
 		if f != nil {
 			class := "mixed"
@@ -671,10 +753,9 @@ func main() {
 			tok.Path = "ZZTOKEN0ZZ"
 			w2 := newWorld()
 			w2.lists["moq_sessions"] = []any{tok}
-			srv.install(w2)
-			body2 := srv.get(query{})
+			body2, f2 := newServer("").scrape(w2, query{})
 			key := f.symptom
-			if judge(body2, w2, query{}) == nil && strings.ReplaceAll(body2, "ZZTOKEN0ZZ", item.Path) == body {
+			if f2 == nil && strings.ReplaceAll(body2, "ZZTOKEN0ZZ", item.Path) == body {
 				key = "label-value-raw-" + class
 			}
 			verdict = key
@@ -683,7 +764,6 @@ func main() {
 		}
 		r.Distinct("moq-reach|" + p + "|" + verdict)
 	}
-	pool <- srv
 
 	keys := make([]string, 0, len(vreps))
 	for k := range vreps {
@@ -702,13 +782,18 @@ func main() {
 	r.Set("cases_single_type_alphabet", nSingle)
 	r.Set("cases_cross_entity_interference", len(cases)-nSingle)
 	r.Set("http_listener_equivalence_cases", nhttp)
+	r.Set("history_family_states", hrep.familyStates)
+	r.Set("histories", hrep.histories)
+	r.Set("histories_by_family", hrep.perFamily)
 	r.Set("moq_client_paths", reach)
 	r.Set("failing_cases_by_class", counts)
 	r.Set("classes_by_entity_type", aff)
 	r.Exhaustive = true
 	r.Assumptions = []string{
 		"providers are stubs returning the enumerated entities; how servers fill them is outside, except the MoQ corpus which runs the real session SETUP handling on wire bytes",
-		"the bulk of the cases calls the real onMetrics handler directly (no listener, no auth middleware); a 1/97 sample is replayed through the real listener and must be byte-identical",
+		"the bulk of the cases calls the real onMetrics handler directly (no listener, no auth middleware); a 1/97 sample is replayed through the real listener and must give the same exposition",
+		"two expositions are 'the same' if byte-identical or, failing that, if both parse and hold the same multiset of (metric, labels, value): the order of lines is not part of the statement",
+		"histories change entity state only between scrapes (no scrape concurrent with a state change); the state alphabet of a history holds at most 2 entities of the kind under test (all-types worlds: 3 per type)",
 		"client-chosen strings are varied only in name/path (states, protocols, reader types, remote addresses and UUIDs take their real well-formed values); counters stay <= 2^63-1",
 		"reference: Prometheus text format 0.0.4 as described in the Prometheus documentation; an entity string that is not UTF-8 may be exposed with U+FFFD replacement",
 		"completeness (each listed entity exposes its count sample and every uint64/float64 counter field exactly once) is required for unfiltered and type-only queries; with a filter, for the selected entity",
